@@ -143,6 +143,42 @@ Theorem C02_interp_name : forall pre s tail,
 Proof. exact interp_name_exact. Qed.
 Print Assumptions C02_interp_name.
 
+(* the Segment OBJECT get_segment(i) builds sees its header only through p_offset / p_filesz: any two
+   program headers that agree on those give the same data on every image (p_memsz smaller than,
+   equal to, larger than p_filesz or zero; any p_type, p_flags, p_vaddr, p_paddr, p_align) *)
+Theorem C02_segment_data_header_free : forall stream ph ph',
+  rec_z ph "p_offset" = rec_z ph' "p_offset" -> rec_z ph "p_filesz" = rec_z ph' "p_filesz" ->
+  Segment_data stream ph = Segment_data stream ph'.
+Proof. exact segment_data_header_free. Qed.
+Print Assumptions C02_segment_data_header_free.
+
+Theorem C02_interp_name_header_free : forall stream ph ph',
+  rec_z ph "p_offset" = rec_z ph' "p_offset" ->
+  InterpSegment_get_interp_name stream ph = InterpSegment_get_interp_name stream ph'.
+Proof. exact interp_name_header_free. Qed.
+Print Assumptions C02_interp_name_header_free.
+
+(* file level: the image holds the segment's bytes and, anywhere, the encoded program header [h];
+   every field of [h] other than p_offset / p_filesz is universally quantified *)
+Theorem C02_segment_data_file_exact : forall le is64 h (pre body tail A R : list Z) img,
+  phdr_fits le is64 h = true ->
+  p_offset h = zlen pre -> p_filesz h = zlen body ->
+  img = pre ++ body ++ tail ->
+  img = A ++ enc_phdr le is64 h ++ R ->
+  segment_data_at img le is64 (zlen A) = Ok body.
+Proof. exact segment_data_file_exact. Qed.
+Print Assumptions C02_segment_data_file_exact.
+
+(* ... and for the interpreter path p_filesz is free too *)
+Theorem C02_interp_name_file_exact : forall le is64 h (pre s tail A R : list Z) img,
+  phdr_fits le is64 h = true ->
+  p_offset h = zlen pre -> no_nul s = true ->
+  img = pre ++ s ++ 0 :: tail ->
+  img = A ++ enc_phdr le is64 h ++ R ->
+  interp_name_at img le is64 (zlen A) = Ok s.
+Proof. exact interp_name_file_exact. Qed.
+Print Assumptions C02_interp_name_file_exact.
+
 (* ---------------- string tables ---------------- *)
 (* any string without NUL, of any length, at any offset of a table placed anywhere in the file:
    independent of where the 64-byte read chunks fall *)
@@ -276,6 +312,12 @@ Example C02_ex_phdrs :
   let img := [1; 2; 3] ++ enc_phdr true true h1 ++ [0xaa; 0xbb; 0xcc; 0xdd] ++ enc_phdr true true h2 ++ [0xee] in
   forallb (phdr_fits true true) [h1; h2] = true /\ phdrs_at true true img 3 60 [h1; h2] = true /\
   addr_map [h1; h2] 0x400100 0x100 = [0x1100].
+Proof. vm_compute. repeat split. Qed.
+(* an unmapped PT_NOTE (p_memsz = 0 < p_filesz = 3) whose header sits behind its bytes in an ELF32 BE image *)
+Example C02_ex_segment_unmapped :
+  let h := mk_phdr PT_NOTE 4 2 0x7000 0x9000 3 0 8 in
+  let img := [9; 9] ++ [10; 20; 30] ++ [7] ++ enc_phdr false false h ++ [1] in
+  phdr_fits false false h = true /\ segment_data_at img false false 6 = Ok [10; 20; 30].
 Proof. vm_compute. repeat split. Qed.
 (* a history on that image: the first lookup is abandoned after one item (it has not reached the
    third header), then a range lying in the LAST PT_LOAD is asked, item by item and as a list *)
